@@ -21,6 +21,13 @@ def enum(binary, target, **kw):
     return d
 
 
+def fuzz(binary, target, seconds_thorough, **kw):
+    """libFuzzer campaign (coverage-guided, fz build tree) on an E1 target; thorough tier only unless tiers= says otherwise."""
+    d = {"kind": "fuzz", "binary": binary, "target": target, "seconds_thorough": seconds_thorough, "tiers": ("thorough",), "cfg": "fz"}
+    d.update(kw)
+    return d
+
+
 def hyp(module, q, t, **kw):
     """Hypothesis stage: py/<module> run by python3-vt with the worker protocol of py/e2.py."""
     d = {"kind": "hyp", "module": module, "cases_quick": q, "cases_thorough": t}
@@ -38,7 +45,7 @@ def custom(script, q, t, **kw):
 PROPS = {}
 META = {}
 for _f in sorted(glob.glob(os.path.join(os.path.dirname(os.path.abspath(__file__)), "props.d", "C*.py"))):
-    _ns = {"gen": gen, "enum": enum, "hyp": hyp, "custom": custom}
+    _ns = {"gen": gen, "enum": enum, "hyp": hyp, "custom": custom, "fuzz": fuzz}
     exec(compile(open(_f).read(), _f, "exec"), _ns)
     _pid = os.path.splitext(os.path.basename(_f))[0]
     if _ns.get("SPEC"):
